@@ -186,7 +186,8 @@ func main() {
 			}
 			win = append(win, ymd{y, 6, 15}, ymd{y, 5, 16}, ymd{y, 7, 14})
 		}
-		for _, y := range []int64{10000, 12345, 999999999, -999999999, 1500000000, -1500000000, 2147483646, -2147483646} {
+		// ... up to the very ends of what a Date can hold (the year is kept as an int32, zero-based: -2147483647 .. 2147483648)
+		for _, y := range []int64{10000, 12345, 999999999, -999999999, 1500000000, -1500000000, 2147483646, -2147483646, 2147483647, 2147483648, -2147483647, 300000000, -300000000} {
 			win = append(win, ymd{y, 1, 1}, ymd{y, 6, 15}, ymd{y, 12, 31})
 		}
 		n := int64(len(win))
